@@ -224,6 +224,79 @@ def gen_shape(rng, kind, stream, size_lo=1e-2, size_hi=1e2):
     return sh
 
 
+# ------------------------------------------------------------------ pose histories (update_pose on re-used arrays)
+POSE_KINDS_4X4 = ("box", "cylinder", "capsule", "ellipsoid", "cone", "mesh")    # constructor takes a 4x4 pose
+POSE_KINDS = POSE_KINDS_4X4 + ("sphere", "disk", "ellipse")                      # implement update_pose(4x4)
+
+
+def shape_pose_floats(sh):
+    """(R rows, t) of the 4x4 pose that update_pose must be given to put the collider where `sh` is"""
+    k = sh["kind"]
+    if "R" in sh:
+        return [list(r) for r in sh["R"]], list(sh["t"])
+    if "Rfull" in sh:                      # disk / ellipse / sphere generated for a history keep their full frame
+        return [list(r) for r in sh["Rfull"]], list(sh["c"])
+    raise ValueError(k)
+
+
+def with_pose(sh, Rm, t):
+    """the same shape (sizes, vertices) at another pose; sphere / disk / ellipse take centre, normal = third
+    column, axes = first two columns of the pose, as their update_pose does"""
+    k = sh["kind"]
+    out = {key: val for key, val in sh.items() if key not in ("history",)}
+    if k in POSE_KINDS_4X4:
+        out.update(R=[list(r) for r in Rm], t=list(t))
+    elif k == "sphere":
+        out.update(c=list(t), Rfull=[list(r) for r in Rm])
+    elif k == "disk":
+        out.update(c=list(t), n=[Rm[i][2] for i in range(3)], Rfull=[list(r) for r in Rm])
+    elif k == "ellipse":
+        out.update(c=list(t), a0=[Rm[i][0] for i in range(3)], a1=[Rm[i][1] for i in range(3)], Rfull=[list(r) for r in Rm])
+    else:
+        raise ValueError(k)
+    return out
+
+
+def cross3(a, b):
+    return [a[1] * b[2] - a[2] * b[1], a[2] * b[0] - a[0] * b[2], a[0] * b[1] - a[1] * b[0]]
+
+
+def frame_with_third_column(Rm, n):
+    """Rm with its third column replaced by n (Disk.update_pose reads only the third column and the translation)"""
+    return [[Rm[i][0], Rm[i][1], n[i]] for i in range(3)]
+
+
+def gen_pose_history(rng, sh, stream):
+    """A history that ends with the collider at the pose of `sh` (the case's shape): construction at another
+    pose, then 1..3 update_pose calls.  What matters is which ARRAY OBJECT carries the poses:
+      ctor_array : the 4x4 array handed to the constructor is overwritten in place and handed to update_pose
+                   again (only kinds whose constructor takes a 4x4 pose),
+      otherwise  : the first update_pose gets a new array, every later one the same array overwritten in place;
+      stack      : the re-used array is one matrix of a (3, 4, 4) pose stack.
+    After every step the collider is observed (the check judges each observation against the pose of that step).
+    -> dict(start=., mids=[...], ctor_array=., stack=.) with poses as dict(R=rows, t=.)"""
+    k = sh["kind"]
+    if k not in POSE_KINDS:
+        return None
+    st = stream if stream in ("lattice", "exact", "near", "composed") else "random"
+
+    def pose():
+        return dict(R=gen_rotation(rng, st), t=gen_translation(rng, st))
+    ctor_array = k in POSE_KINDS_4X4 and rng.random() < 0.5
+    nm = rng.choice([0, 1, 1, 2]) if ctor_array else rng.choice([1, 1, 2])
+    mids = [pose() for _ in range(nm)]
+    if mids and rng.random() < 0.3:
+        # a pure translation step, as in a simulation loop (pose[:3, 3] += v * dt)
+        prev = mids[-1]
+        mids.append(dict(R=[list(r) for r in prev["R"]], t=[x + rng.choice([0.25, -0.5, 1.0]) for x in prev["t"]]))
+    return dict(start=pose(), mids=mids, ctor_array=ctor_array, stack=rng.random() < 0.3)
+
+
+def history_stage_shapes(sh, hist):
+    """shapes the collider must be equal to after construction and after every intermediate update_pose"""
+    return [with_pose(sh, p["R"], p["t"]) for p in [hist["start"]] + list(hist["mids"])]
+
+
 def shape_L(sh, margin=0.0):
     """L = max(1, largest feature size or centre distance)."""
     k = sh["kind"]
@@ -509,6 +582,74 @@ def shape_pose(sh):
     raise ValueError(k)
 
 
+# ---- large polytopes (ring / prism meshes with thousands of vertices): float screening, exact verdict
+BIG_POLY = 200          # vertex count above which the screened evaluation is used
+_BIG_CACHE = {}
+
+
+def _big_arrays(sh):
+    """float world vertices of a large hull / mesh (numpy), cached per shape dictionary (the cache entry
+    keeps the vertex list alive and is re-validated against the pose)"""
+    import numpy as np
+    key = id(sh["vs"])
+    pose = (repr(sh.get("R")), repr(sh.get("t")))
+    ent = _BIG_CACHE.get(key)
+    if ent is not None and ent[0] is sh["vs"] and ent[1] == pose:
+        return ent[2]
+    V = np.array(sh["vs"], dtype=float)
+    if sh["kind"] == "mesh":
+        W = V @ np.array(sh["R"], dtype=float).T + np.array(sh["t"], dtype=float)
+    else:
+        W = V
+    if len(_BIG_CACHE) > 8:
+        _BIG_CACHE.clear()
+    _BIG_CACHE[key] = (sh["vs"], pose, W)
+    return W
+
+
+def world_vertex(sh, i):
+    """exact world coordinates of vertex i of a hull / mesh"""
+    if sh["kind"] == "hull":
+        return Fv(sh["vs"][i])
+    M, c = shape_pose(sh)
+    return qadd(qmatvec(M, Fv(sh["vs"][i])), c)
+
+
+def is_big_poly(sh):
+    return sh["kind"] in ("hull", "mesh") and len(sh["vs"]) > BIG_POLY
+
+
+def big_max_projection(sh, d):
+    """exact max over the vertices of x.d for a large polytope: binary64 projections select the candidates
+    (all vertices within 1e-9 * scale of the float maximum; the float error is below 1e-13 * scale, so the
+    exact maximiser is among them), the candidates are evaluated exactly.  None when the screen is not
+    applicable (tiny / huge / non-finite directions): the caller then evaluates every vertex exactly."""
+    import numpy as np
+    W = _big_arrays(sh)
+    dd = np.array(d, dtype=float)
+    md = float(np.max(np.abs(dd)))
+    if not (1e-100 < md < 1e100) or not np.all(np.isfinite(W)):
+        return None
+    pr = W @ dd
+    scale = md * (float(np.max(np.abs(W))) + 1.0) * 3.0
+    cand = np.nonzero(pr >= pr.max() - 1e-9 * scale)[0]
+    dq = Fv(d)
+    return max(qdot(world_vertex(sh, int(i)), dq) for i in cand)
+
+
+def big_nearest_vertex(sh, p):
+    """exact min over the vertices of the max-norm distance to the exact point p (screened like above)"""
+    import numpy as np
+    W = _big_arrays(sh)
+    pf = np.array([float(x) for x in p], dtype=float)
+    if not (np.all(np.isfinite(pf)) and np.all(np.isfinite(W))):
+        return None
+    dist = np.max(np.abs(W - pf), axis=1)
+    scale = float(np.max(np.abs(W))) + float(np.max(np.abs(pf))) + 1.0
+    cand = np.nonzero(dist <= dist.min() + 1e-9 * scale)[0]
+    return min(max(abs(a - b) for a, b in zip(p, world_vertex(sh, int(i)))) for i in cand)
+
+
 def world_vertices(sh):
     if sh["kind"] == "hull":
         return [Fv(v) for v in sh["vs"]]
@@ -527,7 +668,9 @@ def support_value_bounds(sh, d, margin=0.0):
     k = sh["kind"]
     d = Fv(d)
     if k in ("hull", "mesh", "box"):
-        v = max(qdot(p, d) for p in world_vertices(sh))
+        v = big_max_projection(sh, [float(x) for x in d]) if is_big_poly(sh) else None
+        if v is None:
+            v = max(qdot(p, d) for p in world_vertices(sh))
         lo = hi = v
     elif k == "disk":
         c, n, r = Fv(sh["c"]), Fv(sh["n"]), Fr(sh["r"])
@@ -590,7 +733,9 @@ def in_shape_tol(sh, p, tau):
     k = sh["kind"]
     tau = Fr(tau)
     if k in ("hull", "mesh", "box") and k != "box":
-        best = min(max(abs(a - b) for a, b in zip(p, v)) for v in world_vertices(sh))
+        best = big_nearest_vertex(sh, p) if is_big_poly(sh) else None
+        if best is None:
+            best = min(max(abs(a - b) for a, b in zip(p, v)) for v in world_vertices(sh))
         return best <= tau, f"max-norm distance to nearest vertex {float(best):.3e}"
     if k == "disk":
         c, n, r = Fv(sh["c"]), Fv(sh["n"]), Fr(sh["r"])
